@@ -357,8 +357,32 @@ static bool refdec_audit(rt_case *c, const vbuf *comp, size_t consumed, uint64_t
 }
 
 // bound guarantee: out_size = bound(n) must never be too small
+// The *_buffer_bound() functions are pure arithmetic: over the whole size_t range a bound is either 0 ("too big to
+// encode in one call") or large enough for the data stored uncompressed plus the container, never smaller than the
+// input, and never decreasing when the input grows (checked on sizes that no run could ever encode for real).
+static void c02bound_arith_case(uint64_t idx)
+{
+	vrng r; vrng_init(&r, A.seed, 0xC02A, idx, 0);
+	hx_case_begin(idx);
+	static const uint64_t marks[] = { UINT64_C(1) << 16, UINT64_C(1) << 21, UINT64_C(1) << 31, UINT64_C(1) << 32, (UINT64_C(1) << 32) - (192u << 10), UINT64_C(3) << 31, UINT64_C(1) << 33, UINT64_C(1) << 40, UINT64_C(1) << 62, (UINT64_C(1) << 63) - 1 };
+	for (unsigned q = 0; q < 400; ++q) {
+		uint64_t n = vrng_chance(&r, 1, 2) ? marks[vrng_below(&r, 10)] + vrng_below(&r, 300000) - 150000 : (vrng_u64(&r) >> vrng_below(&r, 50));
+		if (sizeof(size_t) < 8 && n > SIZE_MAX) n = SIZE_MAX - vrng_below(&r, 1000);
+		uint64_t step = 1 + vrng_below(&r, 70000);
+		size_t bb = lzma_block_buffer_bound((size_t)n), sb = lzma_stream_buffer_bound((size_t)n);
+		size_t bb2 = n + step > n && n + step <= SIZE_MAX ? lzma_block_buffer_bound((size_t)(n + step)) : 0;
+		hx_eval();
+		if ((bb != 0 && bb < n) || (sb != 0 && sb < n) || (sb != 0 && bb != 0 && sb < bb) || (bb != 0 && bb2 != 0 && bb2 < bb) || (bb == 0 && bb2 != 0) || (bb != 0 && sb == 0 && n < (UINT64_C(1) << 40))) {
+			hx_violation("C02", "bound-arithmetic", idx, "n=%" PRIu64 ": lzma_block_buffer_bound=%zu lzma_stream_buffer_bound=%zu, block bound for n+%" PRIu64 " = %zu (a bound is 0 or at least the input size, the stream bound covers the block bound, bounds never decrease)", n, bb, sb, step, bb2);
+			break;
+		}
+	}
+	hx_count("bound_arithmetic_probes", 400);
+}
+
 static void c02bound_case(uint64_t idx)
 {
+	if (idx % 10 == 3) { c02bound_arith_case(idx); return; }
 	vrng r; vrng_init(&r, A.seed, 0xC02B, idx, 0);
 	hx_case_begin(idx);
 	static const size_t base[] = { 0, 1, 2, 65535, 65536, 65537, 2u << 20, 4u << 20 };
